@@ -33,7 +33,7 @@ Print Assumptions C18_product.
    (private constants, bounds, unit factors; the files are SiteMap.files_C18) are today the ones the
    model was written against. Gen/Sites.v num_literals is regenerated from /repo on every run; a
    changed, added or removed number in a modelled function breaks this obligation ---- *)
-Require RV.Gen.Sites RV.Model.SiteMap RV.Proofs.SitesFacts.
+Require RV.Gen.Sites RV.Model.SiteMap RV.Proofs.SitesLits.
 Theorem C18_literals_reviewed : RV.Model.SiteMap.literals_ok RV.Model.SiteMap.files_C18.
-Proof. apply RV.Proofs.SitesFacts.literals_okb_sound. vm_compute. reflexivity. Qed.
+Proof. apply RV.Proofs.SitesLits.literals_okb_sound. vm_compute. reflexivity. Qed.
 Print Assumptions C18_literals_reviewed.
